@@ -3,6 +3,7 @@ from collections.abc import Callable, Coroutine
 from concurrent.futures import Executor
 from contextvars import Context, copy_context
 from functools import partial
+from inspect import markcoroutinefunction
 from typing import Any, cast, overload
 
 from haiway.types.missing import MISSING, Missing
@@ -119,6 +120,9 @@ class _ExecutorWrapper[**Args, Result]:
         self._function: Callable[Args, Result] = function
         self._loop: AbstractEventLoop | None = loop
         self._executor: Executor | None = executor
+
+        # async callable objects are not recognized as coroutine functions unless marked
+        markcoroutinefunction(self)
 
         # mimic function attributes if able
         _mimic_async(function, within=self)
